@@ -2,6 +2,8 @@ package harness
 
 import (
 	"fmt"
+
+	"verifrt/simos"
 )
 
 // PropDef ties a property to its workload generator and its oracles.
@@ -56,6 +58,8 @@ func init() {
 		Gen: func(seed uint64, idx int, tier string) *Scenario {
 			sc, r := baseScenario("C03", seed)
 			k := lifecycleKnobs()
+			k.StopCmdP = 150
+			k.DisabledP = 120
 			arm := r.Intn(10)
 			if arm < 2 {
 				k.ExitOnP = 350
@@ -77,6 +81,12 @@ func init() {
 				if r.P(250) && len(sc.Project.Procs) > 0 {
 					p := sc.Project.Procs[r.Intn(len(sc.Project.Procs))]
 					sc.Clients = append(sc.Clients, Client{Name: "st", Ops: []Op{{AtMs: whenMs(r, at+1000), Op: Pick(r, "stop", "restart", "start"), Arg: p.Name}}})
+				}
+				// processes that only start on request (disabled) are started by hand before the shutdown
+				for _, p := range sc.Project.Procs {
+					if p.Disabled && r.P(700) {
+						sc.Clients = append(sc.Clients, Client{Name: "man-" + p.Name, Ops: []Op{{AtMs: r.Intn(at + 1), Op: "start", Arg: p.Name}}})
+					}
 				}
 			case "sweep":
 				sc.Clients = append(sc.Clients, Client{Name: "sweep", Ops: []Op{{Op: "shutdown"}}})
@@ -128,7 +138,28 @@ func init() {
 			GenCore(r, k, sc)
 			sc.RunForMs = 40000
 			subject := sc.Project.Procs[r.Intn(len(sc.Project.Procs))]
-			switch r.Intn(4) {
+			switch r.Intn(5) {
+			case 4:
+				// a shutdown that is held up by a slow process while the subject is in (or
+				// about to enter) its back-off wait
+				sc.Arm = "heldshutdown"
+				subject.Restart = Pick(r, "always", "on_failure")
+				subject.Backoff = iptr(Pick(r, 1, 2, 3))
+				subject.MaxRestarts = 0
+				subject.DependsOn = nil
+				life := Pick(r, 1000, 2000, 3500)
+				sc.Scripts[subject.Token] = &TokenScript{Launches: []simos.Script{{LifeMs: life, Exit: 1}}}
+				slow := &ProcSpec{Name: "slow", Token: "slow", StopTimeout: iptr(Pick(r, 4, 6, 9))}
+				if r.P(500) {
+					sc.OrderedShutdown = true
+					slow.StopTimeout = nil
+					slow.DependsOn = map[string]string{subject.Name: "process_started"}
+				}
+				sc.Scripts["slow"] = &TokenScript{Launches: []simos.Script{{LifeMs: -1, TermLagMs: Pick(r, 3000, 5000, 8000)}}}
+				sc.Project.Procs = append(sc.Project.Procs, slow)
+				at := life + Pick(r, -300, 100, 500, 900)
+				sc.Clients = append(sc.Clients, Client{Name: "sd", Ops: []Op{{AtMs: at, Op: "shutdown"}}})
+				sc.Strategy.StallPermille = 0
 			case 0:
 				sc.Arm = "nostop"
 			case 1:
@@ -173,11 +204,21 @@ func init() {
 			k.MaxLifeMs = 5000
 			GenCore(r, k, sc)
 			sc.RunForMs = 30000
+			if r.P(250) {
+				addRedoPair(r, sc)
+				sc.Arm = "redo"
+				return sc
+			}
+			if r.P(200) {
+				addStopUnreadyPair(r, sc)
+				sc.Arm = "stopunready"
+				return sc
+			}
 			if r.P(400) {
 				var ops []Op
 				for i := 0; i < r.Range(1, 3); i++ {
 					p := sc.Project.Procs[r.Intn(len(sc.Project.Procs))]
-					ops = append(ops, Op{AtMs: whenMs(r, 12000), Op: Pick(r, "start", "restart", "start"), Arg: p.Name})
+					ops = append(ops, Op{AtMs: whenMs(r, 12000), Op: Pick(r, "start", "restart", "start", "stop"), Arg: p.Name})
 				}
 				sortOps(ops)
 				sc.Clients = append(sc.Clients, Client{Name: "c1", Ops: ops})
@@ -215,6 +256,11 @@ func init() {
 			}
 			sc.Arm = "natural"
 			sc.RunForMs = 120000
+			if r.P(200) {
+				addRedoPair(r, sc)
+				sc.Arm = "redo"
+				sc.RunForMs = 25000
+			}
 			return sc
 		},
 		Check: func(sc *Scenario, res *RunResult, t *Truth) []Violation { return checkC05(sc, t) },
@@ -347,6 +393,191 @@ func init() {
 			return false
 		},
 	})
+}
+
+func init() {
+	register(&PropDef{ID: "C20", Rule: "projects whose processes exit, restart and log while 2-5 client tasks issue seeded state/log/info queries, log subscriptions, start/stop/restart/scale/shutdown requests and a poller repeats the TUI's 1 s refresh; run under the Go race detector with happens-before-faithful simulated primitives (scheduler hand-offs excluded), plus panic and blocked-forever detection; non-trivial = at least one state-changing request overlapped another request or a life-cycle event; distinct = distinct trace hash",
+		Gen: func(seed uint64, idx int, tier string) *Scenario {
+			sc, r := baseScenario("C20", seed)
+			k := lifecycleKnobs()
+			k.MinProcs, k.MaxProcs = 1, 5
+			k.RestartP = 500
+			k.MaxLifeMs = 5000
+			k.StartFailP = 60
+			GenCore(r, k, sc)
+			// make the processes talk
+			for _, p := range sc.Project.Procs {
+				ts := sc.Scripts[p.Token]
+				for l := range ts.Launches {
+					if r.P(600) {
+						n := r.Range(1, 6)
+						for i := 0; i < n; i++ {
+							ts.Launches[l].Out = append(ts.Launches[l].Out, simos.OutChunk{AtMs: whenMs(r, 4000), Stream: Pick(r, 1, 2), Data: fmt.Sprintf("line %d of %s\n", i, p.Name)})
+						}
+						sortOut(ts.Launches[l].Out)
+					}
+				}
+			}
+			sc.Arm = "concurrent"
+			sc.RunForMs = 15000
+			sc.QuietMs = 5000
+			sc.Observe = r.P(500)
+			names := []string{}
+			for _, p := range sc.Project.Procs {
+				names = append(names, p.Name)
+			}
+			names = append(names, "nosuch")
+			nc := r.Range(2, 5)
+			for c := 0; c < nc; c++ {
+				var ops []Op
+				for i := 0; i < r.Range(3, 10); i++ {
+					name := names[r.Intn(len(names))]
+					op := Op{AtMs: whenMs(r, 10000), Arg: name}
+					switch r.Intn(16) {
+					case 0, 1, 2:
+						op.Op = "states"
+					case 3:
+						op.Op = "state"
+					case 4:
+						op.Op = "info"
+					case 5:
+						op.Op, op.N, op.M = "log", r.Range(-1, 20), r.Range(-1, 20)
+					case 6:
+						op.Op = "projstate"
+					case 7:
+						op.Op, op.N = "subscribe", r.Range(0, 10)
+					case 8:
+						op.Op = "unsubscribe"
+					case 9, 10:
+						op.Op = "start"
+					case 11, 12:
+						op.Op = "stop"
+					case 13:
+						op.Op = "restart"
+					case 14:
+						op.Op, op.N = "scale", r.Range(0, 4)
+					case 15:
+						if r.P(300) {
+							op.Op = "shutdown"
+						} else {
+							op.Op = "names"
+						}
+					}
+					ops = append(ops, op)
+				}
+				sortOps(ops)
+				sc.Clients = append(sc.Clients, Client{Name: fmt.Sprintf("c%d", c), Ops: ops})
+			}
+			// the TUI's access pattern
+			var poll []Op
+			for i := 0; i < r.Range(3, 12); i++ {
+				poll = append(poll, Op{AtMs: 1000 * i, Op: "states"})
+			}
+			sc.Clients = append(sc.Clients, Client{Name: "tui", Ops: poll})
+			return sc
+		},
+		Check: func(sc *Scenario, res *RunResult, t *Truth) []Violation { return checkC20(sc, res, t) },
+		NonTrivial: func(sc *Scenario, res *RunResult, t *Truth) bool {
+			for _, c := range t.Calls {
+				switch c.Op {
+				case "start", "stop", "restart", "scale", "shutdown", "subscribe":
+					for _, d := range t.Calls {
+						if d != c && d.CallSeq < c.RetSeq && (d.RetSeq < 0 || d.RetSeq > c.CallSeq) {
+							return true
+						}
+					}
+					for _, in := range t.Insts {
+						if in.ExitSeq > c.CallSeq && in.ExitSeq < c.RetSeq {
+							return true
+						}
+					}
+				}
+			}
+			return false
+		},
+	})
+}
+
+// addRedoPair appends a dependency X and a dependent D (process_log_ready or
+// process_healthy) and a client that restarts X after it has become ready - its second
+// life never becomes ready - and then starts D again: readiness of a previous life must
+// not satisfy the condition.
+func addRedoPair(r *R, sc *Scenario) {
+	x := &ProcSpec{Name: "rx", Token: "rx"}
+	d := &ProcSpec{Name: "rd", Token: "rd"}
+	life1 := Pick(r, 1500, 2500, -1)
+	first := simos.Script{LifeMs: life1, TermLagMs: Pick(r, 0, 10, 100)}
+	second := simos.Script{LifeMs: Pick(r, 500, 2000, 4000), Exit: Pick(r, 0, 0, 3)}
+	if r.P(500) {
+		x.ReadyLine = "is ready"
+		first.Out = []simos.OutChunk{{AtMs: Pick(r, 100, 500, 1000), Stream: 1, Data: "rx is ready\n"}}
+		second.Out = []simos.OutChunk{{AtMs: 100, Stream: 1, Data: "rx warming up\n"}}
+		d.DependsOn = map[string]string{"rx": "process_log_ready"}
+	} else {
+		x.Readiness = &ProbeSpec{Token: "rx", Period: iptr(1), InitialDelay: iptr(0), FailureThreshold: iptr(50)}
+		ts := &TokenScript{}
+		for i := 0; i < Pick(r, 1, 2); i++ {
+			ts.Launches = append(ts.Launches, simos.Script{LifeMs: 10, Exit: 0})
+		}
+		if life1 < 0 {
+			// probes keep running while the first life lasts
+			for i := 0; i < 6; i++ {
+				ts.Launches = append(ts.Launches, simos.Script{LifeMs: 10, Exit: 0})
+			}
+		}
+		ts.Launches = append(ts.Launches, simos.Script{LifeMs: 10, Exit: 1})
+		sc.Scripts["simprobe:rx"] = ts
+		if life1 < 0 {
+			first.LifeMs = 3500
+		}
+		d.DependsOn = map[string]string{"rx": "process_healthy"}
+	}
+	sc.Scripts["rx"] = &TokenScript{Launches: []simos.Script{first, second}}
+	sc.Scripts["rd"] = &TokenScript{Launches: []simos.Script{{LifeMs: Pick(r, 300, 1000)}}}
+	sc.Project.Procs = append(sc.Project.Procs, x, d)
+	t1 := Pick(r, 5000, 6000, 7500)
+	sc.Clients = append(sc.Clients, Client{Name: "redo", Ops: []Op{
+		{AtMs: t1, Op: "restart", Arg: "rx"},
+		{AtMs: t1 + Pick(r, 0, 1200, 2500, 6000), Op: "start", Arg: "rd"},
+	}})
+}
+
+// addStopUnreadyPair appends a dependency X with a ready line that is stopped by the user
+// before it ever becomes ready - while it is Pending on a slow dependency of its own, in
+// the back-off of a crash loop, or running - and a dependent D (process_log_ready): D must
+// never be launched.
+func addStopUnreadyPair(r *R, sc *Scenario) {
+	x := &ProcSpec{Name: "ux", Token: "ux", ReadyLine: "is ready"}
+	d := &ProcSpec{Name: "ud", Token: "ud", DependsOn: map[string]string{"ux": "process_log_ready"}}
+	stopAt := 0
+	switch r.Intn(3) {
+	case 0: // pending on a slow process
+		slow := &ProcSpec{Name: "uslow", Token: "uslow"}
+		sc.Scripts["uslow"] = &TokenScript{Launches: []simos.Script{{LifeMs: 6000}}}
+		sc.Project.Procs = append(sc.Project.Procs, slow)
+		x.DependsOn = map[string]string{"uslow": "process_completed"}
+		sc.Scripts["ux"] = &TokenScript{Launches: []simos.Script{{LifeMs: 3000, Out: []simos.OutChunk{{AtMs: 500, Stream: 1, Data: "ux is ready\n"}}}}}
+		stopAt = Pick(r, 0, 1000, 3000)
+	case 1: // crash loop: stopped in the back-off
+		x.Restart = "on_failure"
+		x.Backoff = iptr(Pick(r, 2, 3))
+		sc.Scripts["ux"] = &TokenScript{Launches: []simos.Script{{LifeMs: 700, Exit: 1, Out: []simos.OutChunk{{AtMs: 100, Stream: 2, Data: "ux crashed\n"}}}}}
+		stopAt = Pick(r, 1200, 1700, 4500)
+	case 2: // running, not yet ready
+		sc.Scripts["ux"] = &TokenScript{Launches: []simos.Script{{LifeMs: -1, TermLagMs: Pick(r, 0, 100), Out: []simos.OutChunk{{AtMs: 5000, Stream: 1, Data: "ux is ready\n"}}}}}
+		stopAt = Pick(r, 500, 2000, 4000)
+	}
+	sc.Scripts["ud"] = &TokenScript{Launches: []simos.Script{{LifeMs: 500}}}
+	sc.Project.Procs = append(sc.Project.Procs, x, d)
+	sc.Clients = append(sc.Clients, Client{Name: "stopper", Ops: []Op{{AtMs: stopAt, Op: "stop", Arg: "ux"}}})
+}
+
+func sortOut(o []simos.OutChunk) {
+	for i := 1; i < len(o); i++ {
+		for j := i; j > 0 && o[j].AtMs < o[j-1].AtMs; j-- {
+			o[j], o[j-1] = o[j-1], o[j]
+		}
+	}
 }
 
 func sortOps(ops []Op) {
